@@ -108,7 +108,7 @@ def handlePersist : Handler := fun op =>
     let (lv, n) := labelPy v 0
     let (cv, _) := lv.copy n
     let shared := cv.ids.any fun i => lv.ids.contains i
-    return s!"ok {bT shared} {bT lv.noList}"
+    return s!"ok {bT shared}"
   | "verlt" => some do
     match versionLt14 (← pStr) with
     | some b => return "ok " ++ bT b
